@@ -10,6 +10,16 @@ CLAIMS = {
    note="Trusted: Lean kernel + propext/Classical.choice/Quot.sound; gen_tables.py translator; serialiser/driver; hand-written Py.grad vector rules validated (not proved) against the code by the correspondence run; regular points only (singular set is C19); IEEE rounding not modelled; scalar constants only.",
    technique="Lean 4 proof by mutual structural induction over a translated+hand-written model; differential correspondence check; dual-number failing-input search",
    design_ref="DESIGN.md §5 C02"),
+ "C04": dict(
+   text="Machine-checked proof (Lean 4 + Mathlib MvPolynomial): `degree_sound` — whenever the model of optyx's classifier reports degree d, the expression denotes, for every parameter store, a polynomial of total degree ≤ d in its variables (all node kinds; corollaries `isLinear_affine`, `isQuadratic_deg2`); `degreeIter_eq` / `computeDegree_threshold_irrelevant` — the explicit-stack traversal (phases, early exits) returns exactly what the recursive one returns, for every tree and every switch threshold; `degree_property_cache` — the per-node slot with its -1 sentinel returns the same answer on the first and on all later reads. Tied to the code by exact comparison of every observable of the classification (both traversals, shipped / zero / huge thresholds, depth estimate, slot contents, is_linear / is_quadratic) with the executable model on cell-cover + random trees; oracle = exact (d+1)-th finite differences along rational lines through an independent Fraction interpreter.",
+   note="Trusted: Lean kernel + standard axioms; hand-written model of analysis.py's degree functions validated by the correspondence run; x / Constant(0) excluded by NoConstDivZero (ℝ totalises it); array-valued constants outside the syntax; lru_cache treated as a transparent memo (C14).",
+   technique="Lean 4 proof against MvPolynomial.totalDegree + stack-machine refinement; exact differential correspondence; finite-difference oracle",
+   design_ref="DESIGN.md §5 C04"),
+ "C05": dict(
+   text="Machine-checked proof (Lean 4 + Mathlib): `extractLP_sound` — the extracted LP data of the model of LinearProgramExtractor denote the user's model: c·x + c0 = ⟦obj⟧, each A_ub/b_ub row reproduces its constraint with the >= rows negated, equalities kept, names aligned with columns, bounds the declared ones, rows in order; `coeffs_sound` / `walker_sound` / `coeffs_sound_total` — coefficient and constant extraction are sound for every well-formed linear expression and never raise there; `shortcuts_eq_general` + `names_eq_of_sorted` — the O(1) fast paths return what the general walker returns, including the half of their guard the code does not check (proved from monotone views); `div_zero_raises` — division by the literal 0 raises instead of producing a silent row. Tied to the code by exact rational comparison of extract / extract_all_linear_coefficients / extract_constant_term with the executable model on generated linear problems in every writing style; oracle = Fraction evaluation of the user's expressions at integer points vs row·x − rhs.",
+   note="Trusted: Lean kernel + standard axioms; model of the extraction functions validated by the correspondence run; the variable list is Problem.variables (order and duplicate-freeness are C16); float rounding of coefficient arithmetic not modelled (inputs are small dyadic rationals).",
+   technique="Lean 4 proof of extraction soundness + fast-path refinement; exact rational differential correspondence; Fraction re-evaluation oracle",
+   design_ref="DESIGN.md §5 C05"),
  "C08": dict(
    text="Machine-checked proof (Lean 4 + Mathlib, any linearly ordered field): `lp_pipeline_faithful` — for ANY function linprog that meets the LP contract on the data it is given, optyx's LP path returns the verdict (optimal / infeasible / unbounded) and optimal value of the extracted model in the user's orientation (feasible sets coincide because matrices and bounds are passed through unchanged — `feasible_iff`; max f = −min(−f); un-negation and the constant term restore the value; status chain total and equal to the regenerated table — `lpStatus_table`). Tied to the code by spying the real scipy.optimize.linprog seam: keyword arguments passed and Solution returned are compared exactly with the executable model on every solve; the property's own differential (independently assembled matrix form, same solver, every writing style, 5 methods, solved twice) is the oracle that yields the failing input.",
    note="Partial in one sense: the inside of HiGHS/linprog is trusted through an explicit hypothesis (LinprogContract), never an axiom. 'Extracted data denote the user's model' is property C05. Trusted: Lean kernel + standard axioms, serialiser/driver, model of the solve_lp glue validated by the seam correspondence.",
